@@ -214,6 +214,19 @@ pub fn generate(seed: u64, tier: Tier) -> Case {
                 } else {
                     path.push(format!("added{k}"));
                 }
+                // Or, as one file name, the spelled-out path of a nested closure module
+                // (`a::b.pyxis` next to `a/b.pyxis`).
+                if rng.chance(1, 8) {
+                    let nested: Vec<Vec<String>> = closed
+                        .iter()
+                        .map(|m| p.modules[*m].path.clone())
+                        .filter(|q| q.len() >= 2)
+                        .collect();
+                    if !nested.is_empty() {
+                        path = vec![rng.pick(&nested).join("::")];
+                        notes.push("edit:module_file_named_like_the_path_of_a_closure_module".to_string());
+                    }
+                }
                 if p.modules.iter().any(|m| m.path == path) {
                     path.push(format!("added{k}"));
                 }
